@@ -96,6 +96,15 @@ def run_plain(coro):
         loop.close()
 
 
+def concretize(x, lo, hi):
+    """Turn a symbolic int known to lie in lo..hi into a concrete one by branching (one path per value), so
+    that it can index lists and select actions without CrossHair realising it behind our back."""
+    for v in range(lo, hi + 1):
+        if x == v:
+            return v
+    raise Prune()
+
+
 async def step():
     """Yield to the loop for exactly one iteration (every callback that is ready now runs once)."""
     await asyncio.sleep(0)
@@ -208,17 +217,28 @@ def run_shards(shards, per_condition_timeout, workers=8):
     return shards
 
 
-def discharge(R, shards, title, replay_fn, describe):
-    """One obligation per shard.  replay_fn(args, meta) -> (ok, cls, why) runs the schedule on plain asyncio
-    on the real class; a CrossHair counterexample whose replay says ok is a harness error.  One VIOLATION /
-    KNOWN-FINDING line per distinct finding class.  Returns {class: status}."""
-    seen = {}
+def discharge(R, shards, title, replay_fn, describe, seen=None):
+    """One obligation per shard of one group (= one harness shape).  replay_fn(args, meta) -> (ok, cls, why)
+    runs the schedule on plain asyncio on the real class; a CrossHair counterexample whose replay says ok is
+    a harness error.  One VIOLATION / KNOWN-FINDING line per distinct finding class (`seen` may be shared
+    between groups).  Vacuity: a shard whose twin is refuted is non-trivial; a shard whose condition AND twin
+    are both confirmed contains no well-formed schedule at all (fixing its first choices excluded them) and is
+    recorded as discharged but trivial; if NO shard of the group has a refuted twin the whole group is not
+    discharged.  Returns {class: status}."""
+    seen = {} if seen is None else seen
+    any_reach = any(s['reach_verdict'] == 'refuted' for s in shards)
     for s in shards:
         name = f'{title} [{s["tag"]}]'
         reach = s['reach_verdict'] == 'refuted'
         det = {'twin': s['reach_verdict'], 'twin_secs': round(s['reach_secs'], 1)}
         if s['verdict'] == 'confirmed':
-            R.ob(name, 'discharged' if reach else 'not_discharged', s['secs'], det, nontrivial=reach)
+            if reach:
+                R.ob(name, 'discharged', s['secs'], det, nontrivial=True)
+            elif s['reach_verdict'] == 'confirmed' and any_reach:
+                det['note'] = 'no well-formed schedule in this shard (twin confirmed): vacuously true'
+                R.ob(name, 'discharged', s['secs'], det, nontrivial=False)
+            else:
+                R.ob(name, 'not_discharged', s['secs'], det, nontrivial=False)
         elif s['verdict'] == 'refuted':
             ok, cls, why = replay_fn(s['cex'], s['meta'])
             if ok:
